@@ -76,3 +76,42 @@ L('nmov_nonneg_all', {'frozen': 'set[int]', 'n': 'int'}, 'forall(lambda i: nmov(
 L('cnt_le', {'b': 'list[bool]', 'n': 'int'}, 'And(0 <= cnt(lambda j: b[j], 0, n), cnt(lambda j: b[j], 0, n) <= maxv(n, 0))', ind='n', base='0')
 L('cnt_full', {'b': 'list[bool]', 'n': 'int'}, 'iff(cnt(lambda j: b[j], 0, n) == n, forall(lambda j: b[j], 0, n))', ind='n', base='0',
   requires=['n >= 0'], uses=['cnt_le(b, n)', 'cnt_le(b, n - 1)'])
+
+# ----------------------------------------------------------------------------- C05: patterning parameters see only charge classes
+_SAME = 'forall(lambda j: charge(s[j]) == charge(t[j]), 0, N)'
+L('npos_ext', {'s': 'str', 't': 'str', 'N': 'int', 'lo': 'int', 'hi': 'int'}, 'npos(s, lo, hi) == npos(t, lo, hi)', ind='hi', base='lo',
+  requires=[_SAME, '0 <= lo', 'hi <= N'])
+L('nneg_ext', {'s': 'str', 't': 'str', 'N': 'int', 'lo': 'int', 'hi': 'int'}, 'nneg(s, lo, hi) == nneg(t, lo, hi)', ind='hi', base='lo',
+  requires=[_SAME, '0 <= lo', 'hi <= N'])
+L('nneut_ext', {'s': 'str', 't': 'str', 'N': 'int', 'lo': 'int', 'hi': 'int'}, 'nneut(s, lo, hi) == nneut(t, lo, hi)', ind='hi', base='lo',
+  requires=[_SAME, '0 <= lo', 'hi <= N'])
+L('dform_ext', {'s': 'str', 't': 'str', 'N': 'int', 'b': 'int', 'k': 'int'}, 'dform_upto(s, N, b, k) == dform_upto(t, N, b, k)', ind='k', base='0',
+  requires=[_SAME, 'b >= 1', 'N >= 1', 'k <= N - b + 1'],
+  uses=['npos_ext(s, t, N, 0, N)', 'nneg_ext(s, t, N, 0, N)', 'npos_ext(s, t, N, k - 1, k - 1 + b)', 'nneg_ext(s, t, N, k - 1, k - 1 + b)'])
+T('C05_delta_substitution', {'s': 'str', 't': 'str', 'N': 'int'}, 'delta_spec(s, N) == delta_spec(t, N)', requires=[_SAME, 'N >= 1'],
+  uses=['dform_ext(s, t, N, 5, N - 5 + 1)', 'dform_ext(s, t, N, 6, N - 6 + 1)'])
+T('C05_dmax_substitution', {'s': 'str', 't': 'str', 'N': 'int'}, 'dmax_seq(s, N) == dmax_seq(t, N)', requires=[_SAME, 'N >= 1'],
+  uses=['npos_ext(s, t, N, 0, N)', 'nneg_ext(s, t, N, 0, N)', 'nneut_ext(s, t, N, 0, N)'])
+T('C05_kappa_substitution', {'s': 'str', 't': 'str', 'N': 'int'}, 'kappa_seq(s, N) == kappa_seq(t, N)', requires=[_SAME, 'N >= 1'],
+  uses=['dform_ext(s, t, N, 5, N - 5 + 1)', 'dform_ext(s, t, N, 6, N - 6 + 1)', 'npos_ext(s, t, N, 0, N)', 'nneg_ext(s, t, N, 0, N)', 'nneut_ext(s, t, N, 0, N)'])
+L('scd_inner_ext', {'s': 'str', 't': 'str', 'N': 'int', 'm': 'int', 'u': 'int'}, 'scd_inner(s, m, u) == scd_inner(t, m, u)', ind='u', base='1',
+  requires=[_SAME, '1 <= m', 'm <= N', 'u <= m'])
+L('scd_outer_ext', {'s': 'str', 't': 'str', 'N': 'int', 'u': 'int'}, 'scd_outer(s, u) == scd_outer(t, u)', ind='u', base='2',
+  requires=[_SAME, 'u <= N + 1'], uses=['scd_inner_ext(s, t, N, u - 1, u - 1)'])
+T('C05_scd_substitution', {'s': 'str', 't': 'str', 'N': 'int'}, 'scd_spec(s, N) == scd_spec(t, N)', requires=[_SAME, 'N >= 1'],
+  uses=['scd_outer_ext(s, t, N, N + 1)'])
+
+# charge inversion: every positive residue replaced by a negative one and vice versa
+_INV = 'forall(lambda j: charge(t[j]) == -charge(s[j]), 0, N)'
+L('npos_inv', {'s': 'str', 't': 'str', 'N': 'int', 'lo': 'int', 'hi': 'int'}, 'And(npos(t, lo, hi) == nneg(s, lo, hi), nneg(t, lo, hi) == npos(s, lo, hi))',
+  ind='hi', base='lo', requires=[_INV, '0 <= lo', 'hi <= N'])
+L('dform_inv', {'s': 'str', 't': 'str', 'N': 'int', 'b': 'int', 'k': 'int'}, 'dform_upto(s, N, b, k) == dform_upto(t, N, b, k)', ind='k', base='0',
+  requires=[_INV, 'b >= 1', 'N >= 1', 'k <= N - b + 1'], uses=['npos_inv(s, t, N, 0, N)', 'npos_inv(s, t, N, k - 1, k - 1 + b)'])
+T('C05_delta_inversion', {'s': 'str', 't': 'str', 'N': 'int'}, 'delta_spec(s, N) == delta_spec(t, N)', requires=[_INV, 'N >= 1'],
+  uses=['dform_inv(s, t, N, 5, N - 5 + 1)', 'dform_inv(s, t, N, 6, N - 6 + 1)'])
+L('scd_inner_inv', {'s': 'str', 't': 'str', 'N': 'int', 'm': 'int', 'u': 'int'}, 'scd_inner(s, m, u) == scd_inner(t, m, u)', ind='u', base='1',
+  requires=[_INV, '1 <= m', 'm <= N', 'u <= m'])
+L('scd_outer_inv', {'s': 'str', 't': 'str', 'N': 'int', 'u': 'int'}, 'scd_outer(s, u) == scd_outer(t, u)', ind='u', base='2',
+  requires=[_INV, 'u <= N + 1'], uses=['scd_inner_inv(s, t, N, u - 1, u - 1)'])
+T('C05_scd_inversion', {'s': 'str', 't': 'str', 'N': 'int'}, 'scd_spec(s, N) == scd_spec(t, N)', requires=[_INV, 'N >= 1'],
+  uses=['scd_outer_inv(s, t, N, N + 1)'])
